@@ -171,13 +171,61 @@ fn run_bucketed(c: &Value) -> Value {
   }
 }
 
+// Contention stress on a multi-threaded runtime: `tasks` tasks hand the buffers of a small pool around for `rounds`
+// acquisitions each (half of them freeze + clone before dropping); reports panics (an acquirer that finds the
+// queue empty although it holds a permit), the pool's accounting afterwards, and whether everybody finished.
+fn run_contend(c: &Value) -> Value {
+  let count = c["count"].as_u64().unwrap_or(1) as usize;
+  let tasks = c["tasks"].as_u64().unwrap_or(8) as usize;
+  let rounds = c["rounds"].as_u64().unwrap_or(20000) as usize;
+  let rt = tokio::runtime::Builder::new_multi_thread().worker_threads(4).enable_all().build().unwrap();
+  let pool = Pool::new(count, 64);
+  let p2 = pool.clone();
+  let (panics, hung) = rt.block_on(async move {
+    let mut hs = Vec::new();
+    for t in 0..tasks {
+      let p = p2.clone();
+      hs.push(tokio::spawn(async move {
+        for i in 0..rounds {
+          let mut b = p.acquire_buffer().await;
+          b.as_mut_slice()[0] = (i % 251) as u8;
+          if (i + t) % 2 == 0 {
+            let s = b.freeze(8);
+            let s2 = s.clone();
+            drop(s);
+            tokio::task::yield_now().await;
+            drop(s2);
+          } else {
+            drop(b);
+          }
+        }
+      }));
+    }
+    let mut panics = 0;
+    let mut hung = false;
+    for h in hs {
+      match tokio::time::timeout(std::time::Duration::from_secs(60), h).await {
+        Ok(Ok(())) => {},
+        Ok(Err(e)) => {
+          if e.is_panic() {
+            panics += 1;
+          }
+        },
+        Err(_) => hung = true,
+      }
+    }
+    (panics, hung)
+  });
+  json!({"contend": true, "panics": panics, "hung": hung, "available": pool.available_count(), "in_use": pool.in_use_count()})
+}
+
 pub fn run(cases: &Value) -> Value {
   Value::Array(
     cases
       .as_array()
       .unwrap()
       .iter()
-      .map(|c| if c.get("bucketed").is_some() { run_bucketed(c) } else { run_one(c) })
+      .map(|c| if c.get("contend").is_some() { run_contend(c) } else if c.get("bucketed").is_some() { run_bucketed(c) } else { run_one(c) })
       .collect(),
   )
 }
